@@ -28,3 +28,8 @@ package config
 //@   trusted
 //@   pure
 //@   ensures result1 == nil ==> result0 != nil
+
+//@ func (*Config).BatchCheckMaxBatchSize
+//@   trusted
+//@   pure
+//@   ensures result >= 1
